@@ -8,7 +8,7 @@ pub fn sha(text: &[u8]) -> String {
     d.iter().map(|b| format!("{b:02x}")).collect()
 }
 
-pub const OUTCOMES: [&str; 16] = [
+pub const OUTCOMES: [&str; 17] = [
     "Theorem",
     "CounterSatisfiable",
     "ContradictoryAxioms",
@@ -25,6 +25,7 @@ pub const OUTCOMES: [&str; 16] = [
     "ExitWithoutReading",
     "TheoremAfterLongOutput",
     "TimeoutAfterLongOutput",
+    "GaveUpThenTheorem",
 ];
 
 /// does a prover run with this outcome print `SZS status Theorem` (in valid UTF-8 output)?
@@ -64,6 +65,13 @@ pub fn main() -> ! {
                 let _ = out.write_all(format!("% lrs+1011_{k}:1_bd=off:nwc=1.5:sac=on_300 on stdin\n% (1234)Time limit reached!\n% ------------------------------\n% Version: Vampire 4.8\n% Termination reason: Time limit\n% Termination phase: Saturation\n% Memory used [KB]: 12345\n% Time elapsed: 0.300 s\n% ------------------------------\n% ------------------------------\n").as_bytes());
             }
             let _ = out.write_all(status(if outcome == "TheoremAfterLongOutput" { "Theorem" } else { "Timeout" }).as_bytes());
+            0
+        }
+        "GaveUpThenTheorem" => {
+            // two status lines in one run (a portfolio child that gives up before another one succeeds):
+            // a status other than Theorem was printed, so the run does not count as proven
+            let _ = out.write_all(status("GaveUp").as_bytes());
+            let _ = out.write_all(status("Theorem").as_bytes());
             0
         }
         "CounterSatisfiable" | "ContradictoryAxioms" | "Timeout" | "MemoryOut" | "GaveUp" | "Error" => {
